@@ -24,7 +24,7 @@ REASONS = [  # first match wins: (regex on func, regex on kind, regex on expr, r
     (r'^BigInt_updateInner$', r'^index$', r'^bits\[0\]$', 'guarded by bitsLen > 0 on the line above (cap/len of the same slice)'),
     (r'^BigInt_updateInner$', r'^loop$', r'bitsLen < len', 'bitsLen is incremented in the body; bounded by the array length 2'),
     (r'^Condition_String$', r'', r'', 'loop shifts a single bit left while r != 0 and clears the bit from r when it names a condition: r < 2^12 for every flag set the package produces (C02_flags_range: no bit beyond the twelve); the panic is the default branch for an unknown bit; total stream formats every returned Condition'),
-    (r'^Context_Cbrt$', r'^loop$', r'z\.Cmp\(decimalOne(Eighth)?\)', 'scaling loops: each round multiplies z by 8 (1/8) under an ErrDecimal with trap set 0 of the working context nc (BaseContext.WithPrecision: traps are BaseContext\'s, so a failure sets ed.err and ed.Mul becomes a no-op - the loop would then spin: excluded because |exponent| <= 100000 bounds the number of rounds by 332193+ and every product stays in range; model: scaleLoop fuel, Props C11 cbrtOp; traps/roots/total streams with operands at both ends of the exponent range under every trap set, watchdog 20 s)'),
+    (r'^Context_Cbrt$', r'^loop$', r'z\.Cmp\(decimalOne(Eighth)?\)', 'scaling loops: each round multiplies z by 8 (1/8) through the ErrDecimal and then tests ed.Err() (repair of a real hang: a failed step leaves z unchanged and the loop used to spin for operands with more than ~100000 digits); a round that does not fail moves the value by a factor >= 7 inside [1E-100001, 1E+100001), so at most 2*100001 rounds follow the first: C04_cbrt_total (every operand), C11_cbrt_returns'),
     (r'^Context_Cbrt$', r'^loop$', r'exp8', 'counted by exp8 towards 0'),
     (r'^Context_Cbrt$', r'^loop$', r'newLoop', 'left by loop.done: converged, or error after 10 + (Precision+1) rounds (loop.go maxIterations); ed.Err() tested every round'),
     (r'^Context_Ln$', r'^loop$', r'n := 1', 'series loop: leaves when the term no longer changes the sum, or on ed.Err() (fix d234447: used to spin once the ErrDecimal held an error), n bounded by the working precision; C03T_ln_err, translog + traps streams'),
